@@ -48,14 +48,6 @@ def run(ctx):
     ctx.extra["entry_points"] = len(entries)
     ctx.extra["entry_sample"] = entries[:25]
     ctx.extra["untrusted_struct_fields"] = {"bytes": sorted(cl.summ.reg_buf)[:40], "integers": sorted(cl.summ.reg_scalar)[:60]}
-    if ctx.tier == "thorough":
-        for cfg in ("nodefault", "lz4"):
-            try:
-                fx2 = ctx.facts(cfg)
-            except SystemExit as e:
-                ctx.note("config %s not buildable offline: %s" % (cfg, e))
-                continue
-            analyse(ctx, fx2, prefix=cfg + ":")
     return dict(
         level_note="decides four structural clauses of C15 (allocation from unvalidated length, unguarded index/slice, "
                    "unguarded unsafe access, unwrap/panic decided by untrusted data) for the closure of the parser entry "
